@@ -18,6 +18,8 @@ EXTENDS Naturals, Sequences, FiniteSets, TLC, SequencesExt, FiniteSetsExt
 CONSTANTS Names,       \* names that may occur in a tree
           MaxEntries,  \* entries per directory
           MaxArgs,     \* arguments per run
+          CwdMode,     \* how the command knows its working directory: "real" (symbolic links resolved, the code since
+                       \* 222f483) | "logical" (as it was entered - $PWD - the code before)
           KeyMode      \* how the command tells files apart: "real" (the path with symbolic links resolved,
                        \* the code since c1be75a) | "spelled" (the cleaned path as spelled, the code before)
 
@@ -70,32 +72,40 @@ IWalk(t, p) ==
   ELSE IF KindOf(p) # "dir" THEN {}                                 \* symlinks: neither regular nor directory
   ELSE IF p # <<>> /\ Excluded(Last(p)) THEN {}                      \* filepath.SkipDir
   ELSE UNION {IWalk(t, q) : q \in {x \in Paths(t) : Len(x) = Len(p) + 1 /\ IsPrefix2(p, x)}}
+\* The working directory is the root of the tree; it may have been entered through the link that lies next to the
+\* tree (cv = "l"). A relative argument is joined to the working directory as the command knows it: with
+\* CwdMode = "logical" it is then spelled through the link, and "." is the link itself - which the walk does not
+\* follow.
+CwdVias == {"w", "l"}
+ViaOf(a, cv) == IF a.abs \/ a.via = "l" THEN a.via ELSE IF CwdMode = "logical" THEN cv ELSE "w"
+RootIsLink(a, cv) == a.path = <<>> /\ ~a.abs /\ CwdMode = "logical" /\ cv = "l"
 \* what the walks yield: paths as spelled (through the link or not)
-ISpelled(t, args) == UNION {{[via |-> args[i].via, p |-> q] : q \in IWalk(t, args[i].path)} : i \in 1..Len(args)}
+ISpelled(t, args, cv) == UNION {{[via |-> ViaOf(args[i], cv), p |-> q] :
+                                    q \in (IF RootIsLink(args[i], cv) THEN {} ELSE IWalk(t, args[i].path))} : i \in 1..Len(args)}
 \* findFiles keeps one entry per key
 IKey(x) == IF KeyMode = "real" THEN [via |-> "w", p |-> x.p] ELSE x
-IEntries(t, args) == {IKey(x) : x \in ISpelled(t, args)}
-ISet(t, args) == {e.p : e \in IEntries(t, args)}
+IEntries(t, args, cv) == {IKey(x) : x \in ISpelled(t, args, cv)}
+ISet(t, args, cv) == {e.p : e \in IEntries(t, args, cv)}
 \* how often a file is processed in one run
-ITimes(t, args, q) == Cardinality({e \in IEntries(t, args) : e.p = q})
+ITimes(t, args, cv, q) == Cardinality({e \in IEntries(t, args, cv) : e.p = q})
 
 PathLess(p, q) ==
   \E k \in 1..Len(p) + 1 :
      /\ \A j \in 1..(k - 1) : j <= Len(q) /\ p[j] = q[j]
      /\ \/ (k = Len(p) + 1 /\ Len(q) >= k)
         \/ (k <= Len(p) /\ k <= Len(q) /\ Rank(p[k]) < Rank(q[k]))
-IFiles(t, args) == SortSeq(SetToSeq(ISet(t, args)), PathLess)
+IFiles(t, args, cv) == SortSeq(SetToSeq(ISet(t, args, cv)), PathLess)
 
 \* -------------------------------------------------------------- machine --
-VARIABLES tree, args
-vars == <<tree, args>>
-Init == tree \in Trees /\ args \in {l \in ArgLists(tree) : \A i \in 1..Len(l) : Constrained(l[i])}
+VARIABLES tree, args, cwdvia
+vars == <<tree, args, cwdvia>>
+Init == tree \in Trees /\ args \in {l \in ArgLists(tree) : \A i \in 1..Len(l) : Constrained(l[i])} /\ cwdvia \in CwdVias
 Next == UNCHANGED vars
 Spec == Init /\ [][Next]_vars
 
 DesignOK ==
-  LET f == IFiles(tree, args) IN
+  LET f == IFiles(tree, args, cwdvia) IN
   /\ {f[i] : i \in 1..Len(f)} = RefSet(tree, args)
   /\ \A i, j \in 1..Len(f) : i < j => PathLess(f[i], f[j])          \* sorted, hence no duplicates
-  /\ \A q \in RefSet(tree, args) : ITimes(tree, args, q) = 1        \* each once, whatever the spellings
+  /\ \A q \in RefSet(tree, args) : ITimes(tree, args, cwdvia, q) = 1        \* each once, whatever the spellings
 ====
